@@ -460,13 +460,13 @@ func (c *Ctx) c01Atomic(rule string, m *smtpModel) {
 			r.Bad(rule, cons, p.InstrPos(orig), "Deliver is called in a function that neither reads the DATA block nor is called (through a single call chain) from the function that does: the guard between a failed read and delivery cannot be established")
 			continue
 		}
-		errV := extractOf(gcall, 1)
+		_, inner := m.readVia(site.Parent())
 		isDeliver := func(in ssa.Instruction) bool { return in == site.(ssa.Instruction) }
 		if !eng.Dominates(gcall, site.(ssa.Instruction)) {
 			r.Bad(rule, cons, p.InstrPos(site), "the DATA read does not dominate Deliver")
 			continue
 		}
-		if !eng.KnownNil(errV, site.Block()) {
+		if !m.readSucceededAt(gcall, inner, site.Block()) {
 			r.Bad(rule, cons, p.InstrPos(site), "Deliver is reachable when the DATA read failed (no dominating `err == nil` edge of the read's error): a cut connection would store a partial message")
 			continue
 		}
